@@ -93,8 +93,12 @@ def r2_pipeline(ctx):
                 casts.add(norm(e.resolved))
         copies.append(any(COPY in norm(e.resolved) or COPY in str(e.extra) for e in q.events if e.kind in ("store", "expr")))
         isnum = None
+        verdicts = {t.extra for t in q.tests() if norm(t.resolved) in (f"isinstance({COPY}, (IntegerType, FloatType))", f"isinstance({COPY}, (FloatType, IntegerType))",
+                                                                        f"isinstance({COPY}, NumberType)")}
+        if len(verdicts) == 2:
+            continue          # infeasible: the integer/float wrappers are exactly the number wrappers
         for t in q.tests():
-            if norm(t.resolved) in (f"isinstance({COPY}, (IntegerType, FloatType))", f"isinstance({COPY}, NumberType)"):
+            if norm(t.resolved) in (f"isinstance({COPY}, (IntegerType, FloatType))", f"isinstance({COPY}, (FloatType, IntegerType))", f"isinstance({COPY}, NumberType)"):
                 isnum = t.extra if isnum is None else isnum
         if isnum:
             seq = []
